@@ -126,7 +126,23 @@ func NewWorld(t *testing.T, sc *Scenario) *World {
 		w.installStoreMonitor(d)
 	}
 	w.cache = NewSimCache(w.cfg.Cache, w.ch)
+	if w.cache != nil && w.prop != "C02" && w.prop != "C11" {
+		w.cache.monitor = false // the cached-object fingerprint monitor belongs to C02/C11
+	}
+	if w.cfg.CheckEvery == 0 && w.prop != "C01" && w.prop != "C02" {
+		// other properties use the contents check only as a guard (their own oracles re-check
+		// what they depend on), so it need not run after every single op
+		w.cfg.CheckEvery = 4
+	}
 	w.layerFn = mast.DefaultLayer(w.cfg.MarshalFn())
+	if w.cfg.CmpScale != 0 {
+		base := mast.DefaultKeyCompare(w.cfg.MarshalFn())
+		scale := w.cfg.CmpScale
+		w.cb = &Callbacks{KeyCompare: func(a, b interface{}) (int, error) {
+			c, err := base(a, b)
+			return c * scale, err
+		}}
+	}
 	return w
 }
 
@@ -562,7 +578,7 @@ func (w *World) opInsert(op *Op) {
 	if int(t.m.Height()) != t.baseHeight {
 		t.hChanged = true
 	}
-	w.sanity(t, "ins")
+	w.sanityEvery(t, "ins")
 }
 
 func (w *World) opDelete(op *Op) {
@@ -600,7 +616,7 @@ func (w *World) opDelete(op *Op) {
 	if int(t.m.Height()) != t.baseHeight {
 		t.hChanged = true
 	}
-	w.sanity(t, "del")
+	w.sanityEvery(t, "del")
 }
 
 func (w *World) opGet(op *Op) {
@@ -1336,6 +1352,9 @@ func (w *World) opRestart(op *Op) {
 	}
 	w.st.Probes["restart"]++
 	w.cache = NewSimCache(w.cfg.Cache, w.ch)
+	if w.cache != nil && w.prop != "C02" && w.prop != "C11" {
+		w.cache.monitor = false
+	}
 	for _, v := range w.vers {
 		if v != nil && v.kind != "root" {
 			v.dead = true
